@@ -60,6 +60,24 @@ def observe(module, B, rec):
     return out
 
 
+def observe_final(m):
+    """the same observation on the module apply() returns (intervals re-joined): positions are addresses - 0x1000"""
+    out = {"symex": [], "tabs": {}}
+    for bi in m.byte_intervals:
+        for off, e in bi.symbolic_expressions.items():
+            out["symex"].append((bi.address + off - 0x1000, expr_key(e)))
+    for t, name in enumerate(irgen.TABLES):
+        rows = []
+        for o, v in m.aux_data[name].data.items():
+            el = o.element_id
+            if getattr(el, "address", None) is None:
+                rows.append((("dangling", type(el).__name__), irgen.tabval(t, v)))
+            else:
+                rows.append((el.address + o.displacement - 0x1000, irgen.tabval(t, v)))
+        out["tabs"][t] = sorted(rows, key=repr)
+    return out
+
+
 class C04(IRProp):
     id = "C04"
     prop_file = "Properties/C04.v"
@@ -155,8 +173,11 @@ class C04(IRProp):
                     code = r["mod_code"][n][1]
                     for ro, e in code.text_section.symbolic_expressions.items():
                         want.append((starts[i] + patch_pos(i, n) + ro, expr_key(e)))
+        final = observe_final(r["built"].m) if not case.align else None     # alignment padding would shift the addresses
         if sorted(want, key=repr) != sorted(obs["symex"], key=repr):
             bad.append(dict(what=f"symbolic expressions: expected {sorted(want, key=repr)}, found {sorted(obs['symex'], key=repr)}"))
+        if final is not None and sorted(want, key=repr) != sorted(final["symex"], key=repr):
+            bad.append(dict(what=f"symbolic expressions after apply(): expected {sorted(want, key=repr)}, found {sorted(final['symex'], key=repr)}"))
         if obs["dups"]:
             bad.append(dict(what=f"duplicate symbol names {obs['dups']}"))
         if obs["foreign"]:
@@ -189,6 +210,8 @@ class C04(IRProp):
                                 want.append((starts[i] + patch_pos(i, n) + ro, sz))
             if sorted(want, key=repr) != obs["tabs"][t]:
                 bad.append(dict(what=f"table {irgen.TABLES[t]}: expected {sorted(want, key=repr)}, found {obs['tabs'][t]}"))
+            if final is not None and sorted(want, key=repr) != final["tabs"][t]:
+                bad.append(dict(what=f"table {irgen.TABLES[t]} after apply(): expected {sorted(want, key=repr)}, found {final['tabs'][t]}"))
         # --- CFI directives of the original
         got = {did: (pos, c) for pos, c, did in obs["cfi"]}
         for i, dm in case.cfi.items():
